@@ -60,6 +60,10 @@ pub struct Group {
     pub family: Family,
     pub n: u16,
     pub seed: u64,
+    /// 0: as generated; 1: every point at the group's z0 (a track in one pad
+    /// row); 2: every point at z = 0.0 exactly
+    #[serde(default)]
+    pub flat: u8,
 }
 
 fn clamp_r(r: f64) -> f64 {
@@ -67,6 +71,17 @@ fn clamp_r(r: f64) -> f64 {
 }
 
 pub fn points_of(g: &Group) -> Vec<SpacePoint> {
+    let mut pts = points_as_generated(g);
+    if g.flat != 0 {
+        let z = if g.flat == 1 { 2.0 * unit(g.seed, 2) - 1.0 } else { 0.0 };
+        for p in &mut pts {
+            p.z = Length::new::<meter>(z);
+        }
+    }
+    pts
+}
+
+fn points_as_generated(g: &Group) -> Vec<SpacePoint> {
     let n = g.n as u64;
     let s = g.seed;
     let phi0 = unit(s, 1) * 2.0 * PI;
@@ -215,7 +230,7 @@ pub fn staircase() -> impl Strategy<Value = Family> {
 }
 
 pub fn group(max_n: u16) -> impl Strategy<Value = Group> {
-    (family(), prop_oneof![1 => 0u16..13, 6 => 13u16..=60, 1 => 60u16..=max_n.max(61)], any::<u64>()).prop_map(|(family, n, seed)| Group { family, n, seed })
+    (family(), prop_oneof![1 => 0u16..13, 6 => 13u16..=60, 1 => 60u16..=max_n.max(61)], any::<u64>(), prop_oneof![14 => Just(0u8), 1 => Just(1u8), 1 => Just(2u8)]).prop_map(|(family, n, seed, flat)| Group { family, n, seed, flat })
 }
 
 /// A point multiset: a few groups, optionally with exact duplicates of points
